@@ -8,7 +8,7 @@ from ..ref import geom as G
 from ..runner import Acc
 
 ID = "C01"
-TOL = 1e-6
+TOL = 2e-8
 
 META = {
     "rule": "every (p1, p2, z) triple of the pose alphabet for odometry edges of each type and every (p1, offset, landmark, z) tuple for the four landmark kinds; "
@@ -19,7 +19,7 @@ META = {
         "oracle differentiates the implementation's own error function (C02 owns the error model, C09 the boxplus)",
         "each configuration is also evaluated a second time after an in-place edit of the first vertex's pose (history of length 2)",
         "SE(2) angular error is unwrapped by multiples of 2 pi before differencing (the property excludes the wrap set); SE(3) rotational error sign is aligned when |q_vec| > 0.5",
-        "tolerance 1e-6 x (1 + largest translation magnitude in the configuration)",
+        "tolerance 2e-8 x (1 + sum of translation magnitudes in the configuration) (5-point oracle accurate to ~1e-11 relative; measured ratio <= 1e-4)",
     ],
     "required_classes": ["odo:R2", "odo:R3", "odo:SE2", "odo:SE3", "lm:SE2", "lm:SE3", "lm:R2", "lm:R3", "w_negative", "w_zero", "offset_rotated", "angle_seam"],
     "bounds": {
@@ -181,6 +181,18 @@ def _eval(case):
         after = [I.comps(v.pose) for v in e.vertices]
         if after != before:
             msgs.append("calc_jacobians changed a vertex pose")
+        # the derivative does not know about fixed flags
+        if not msgs:
+            for flags in ((True, True), (True, False), (False, True)):
+                for v, f in zip(e.vertices, flags):
+                    v.fixed = f
+                jf = e.calc_jacobians()
+                nops += 1
+                for vi in (0, 1):
+                    if not np.array_equal(np.asarray(jf[vi], dtype=float), np.asarray(jacs[vi], dtype=float)):
+                        msgs.append("Jacobian %d changes when the vertices are marked fixed=%r" % (vi, flags))
+            for v in e.vertices:
+                v.fixed = False
         # history: evaluate the error, edit the first vertex's pose IN PLACE (a user may do that: poses are arrays), then ask
         # for the Jacobians again -- they must be the derivative at the NEW pose (no stale intermediate results)
         if not msgs:
